@@ -1,10 +1,13 @@
 /* C10: persistent store/validate/fetch round-trips and stays inside its region.
  * Units: src/persistent-storage.c, src/crc-16-arc.c (linked unchanged).
- * See c10_common.h for the medium model. The initial medium content is
- * arbitrary in every mode, so each mode is a one-step check from any history.
+ * See c10_common.h for the medium model and the checksum kinds. The initial
+ * medium content is arbitrary in every mode, so each mode is a step from any
+ * history of the medium.
  *
- * MODE_ROUNDTRIP  full store -> validate -> fetch -> single-octet alteration
- * MODE_PART       store_part / fetch_part with full 64-bit (offset, length)
+ * MODE_ROUNDTRIP  full store -> validate -> fetch
+ * MODE_ALTER      full store -> one octet of the region altered -> validate
+ * MODE_PART       store_part / validate / fetch / fetch_part, full 64-bit
+ *                 (offset, length) pairs
  * MODE_RESET      persistent_reset
  */
 #define PROP "C10"
@@ -12,6 +15,7 @@
 
 struct vp_in {
     struct c10_cfg cfg;
+    struct c10_states sta, stb;
     uint8_t medium[MSIZE];
     uint8_t image[N];
     uint8_t dst[GUARD + N + GUARD];
@@ -22,12 +26,23 @@ struct vp_in {
 };
 VP_DECLARE_INPUT();
 
+#define DSTSZ (GUARD + N + GUARD)
+
+/* everything except dst[GUARD .. GUARD+n) unchanged */
 static bool dst_guards_same(const uint8_t *dst, const uint8_t *before, size_t n)
 {
-    /* everything except dst[GUARD .. GUARD+n) unchanged */
     bool same = true;
-    for (size_t i = 0; i < GUARD + N + GUARD; ++i)
+    for (size_t i = 0; i < DSTSZ; ++i)
         if ((i < GUARD || i >= GUARD + n) && dst[i] != before[i])
+            same = false;
+    return same;
+}
+
+static bool dst_is(const uint8_t *dst, const uint8_t *img)
+{
+    bool same = true;
+    for (size_t i = 0; i < N; ++i)
+        if (dst[GUARD + i] != img[i])
             same = false;
     return same;
 }
@@ -41,17 +56,20 @@ void harness(void)
     PersistentStorage s;
     c10_instance(&s, &in.cfg);
 
-    uint8_t dst[GUARD + N + GUARD];
-    for (size_t i = 0; i < sizeof dst; ++i)
+    uint8_t dst[DSTSZ];
+    for (size_t i = 0; i < DSTSZ; ++i)
         dst[i] = in.dst[i];
-
-#if defined(MODE_ROUNDTRIP)
     uint8_t img[N];
     for (size_t i = 0; i < N; ++i)
         img[i] = in.image[i];
-    const uint32_t ref = c10_ref(&in.cfg, img);
 
+#if defined(MODE_ROUNDTRIP) || defined(MODE_ALTER)
+    c10_current(&in.cfg, img, &in.sta);
+    const uint32_t ref = c10_ref(&in.cfg, img);
     PersistentAccess rc = persistent_store(&s, img);
+#endif
+
+#if defined(MODE_ROUNDTRIP)
     VP_ASSERT(rc == PERSISTENT_ACCESS_SUCCESS, "C10.store.succeeds");
     VP_ASSERT(c10_data_is(img), "C10.store.data-on-medium-is-image");
     VP_ASSERT(c10_stored() == ref, "C10.store.checksum-on-medium-is-algorithm-of-image");
@@ -62,53 +80,66 @@ void harness(void)
 
     rc = persistent_fetch(dst + GUARD, &s);
     VP_ASSERT(rc == PERSISTENT_ACCESS_SUCCESS, "C10.fetch-after-store.succeeds");
-    bool same = true;
-    for (size_t i = 0; i < N; ++i)
-        if (dst[GUARD + i] != img[i])
-            same = false;
-    VP_ASSERT(same, "C10.fetch-after-store.returns-image");
+    VP_ASSERT(dst_is(dst, img), "C10.fetch-after-store.returns-image");
     VP_ASSERT(dst_guards_same(dst, in.dst, N), "C10.fetch.writes-only-n-octets");
     VP_ASSERT(c10_data_is(img) && c10_stored() == ref && c10_outside_same(in.medium),
               "C10.validate-fetch.leave-medium");
-    VP_WITNESS(in.cfg.aux == 0 && C10_KIND(&in.cfg) == 0 && in.cfg.base == 0xfffffff0u,
-               "C10.roundtrip.nobuf-trivial.reach");
-    VP_WITNESS(in.cfg.aux == AUXMAX && C10_KIND(&in.cfg) == 2 && in.cfg.order == 1,
-               "C10.roundtrip.bigbuf-sum32.reach");
-    VP_WITNESS(in.cfg.aux == AUXMID && C10_KIND(&in.cfg) == 1 && in.cfg.init == 0xffffu,
-               "C10.roundtrip.chunked-crc.reach");
+    VP_WITNESS(in.cfg.aux == 0 && in.cfg.base == 0xfffffff0u, "C10.roundtrip.nobuf.reach");
+#ifndef KIND
+    VP_WITNESS(C10_KIND(&in.cfg) == 3 && in.cfg.aux == 1, "C10.roundtrip.any-16bit.reach");
+    VP_WITNESS(C10_KIND(&in.cfg) == 4 && in.cfg.aux == 1, "C10.roundtrip.any-32bit.reach");
+#endif
+    VP_WITNESS(in.cfg.aux == AUXMAX && in.cfg.order == 1, "C10.roundtrip.bigbuf.reach");
+    VP_WITNESS(in.cfg.aux == AUXMID && in.cfg.init == 0xffffu && !a_lost, "C10.roundtrip.chunked.reach");
 
-    /* one stored octet (checksum or data) is altered */
+#elif defined(MODE_ALTER)
+    /* the clause is about the state after a successful store */
+    if (rc != PERSISTENT_ACCESS_SUCCESS)
+        return;
     VP_ASSUME(in.alt_pos < m_cs + N);
     VP_ASSUME(in.alt_val != M[GUARD + in.alt_pos]);
     M[GUARD + in.alt_pos] = in.alt_val;
     uint8_t img2[N];
     c10_get_data(img2);
+    if (in.alt_pos >= m_cs) {
+        /* a data octet changed: the altered image has its own states, equal to
+         * the original ones as far as the two images share a prefix */
+        const size_t j = in.alt_pos - m_cs;
+        for (size_t k = 0; k < N; ++k)
+            if (k < j)
+                VP_ASSUME(in.stb.st[k] == in.sta.st[k]);
+        c10_current(&in.cfg, img2, &in.stb);
+    }
     const bool distinguishes = (c10_stored() != ref) || (c10_ref(&in.cfg, img2) != ref);
     PersistentStorage t; /* validation by a fresh instance of the same configuration */
     c10_instance(&t, &in.cfg);
     rc = persistent_validate(&t);
     if (distinguishes)
         VP_ASSERT(rc == PERSISTENT_ACCESS_INVALID_DATA, "C10.alter.reported-invalid");
-    VP_WITNESS(distinguishes && in.alt_pos >= m_cs && in.cfg.aux == 2, "C10.alter.data.reach");
-    VP_WITNESS(distinguishes && in.alt_pos < m_cs, "C10.alter.checksum.reach");
+    VP_WITNESS(distinguishes && in.alt_pos >= m_cs && in.cfg.aux == AUXMID, "C10.alter.data.reach");
+    VP_WITNESS(distinguishes && in.alt_pos + 1 == m_cs && in.cfg.aux == 0, "C10.alter.checksum.reach");
+#ifndef KIND
+    VP_WITNESS(!distinguishes && rc == PERSISTENT_ACCESS_SUCCESS, "C10.alter.collision.reach");
+#endif
 
 #elif defined(MODE_PART)
     /* source operand: exactly min(len, N) octets, ending at the array's end */
     const size_t have = in.len > N ? N : (size_t)in.len;
-    uint8_t srcarr[N];
-    for (size_t i = 0; i < N; ++i)
-        srcarr[i] = in.image[i];
 #ifdef VP_REPLAY
     uint8_t *src = malloc(have ? have : 1);
-    memcpy(src, srcarr + (N - have), have);
+    memcpy(src, img + (N - have), have);
 #else
-    const uint8_t *src = srcarr + (N - have);
+    const uint8_t *src = img + (N - have);
 #endif
     uint8_t old[N], want[N];
     c10_get_data(old);
 
     /* beyond the data size, mathematically (no wrap) */
     const bool oor = in.len > N || in.off > N - in.len;
+    for (size_t i = 0; i < N; ++i)
+        want[i] = (!oor && i >= in.off && i < in.off + in.len) ? src[i - in.off] : old[i];
+    c10_current(&in.cfg, want, &in.sta);
+
     PersistentAccess rc = persistent_store_part(&s, src, (size_t)in.off, (size_t)in.len);
     if (oor) {
         VP_ASSERT(rc == PERSISTENT_ACCESS_ADDRESS_OUT_OF_RANGE, "C10.store-part.beyond-size-refused");
@@ -116,11 +147,7 @@ void harness(void)
         VP_ASSERT(c10_medium_same(in.medium), "C10.store-part.refused-medium-unchanged");
         VP_WITNESS(in.off + in.len <= N, "C10.store-part.wrapping-pair.reach");
         VP_WITNESS(in.off == N && in.len == 1, "C10.store-part.just-beyond.reach");
-        for (size_t i = 0; i < N; ++i)
-            want[i] = old[i];
     } else {
-        for (size_t i = 0; i < N; ++i)
-            want[i] = (i >= in.off && i < in.off + in.len) ? src[i - in.off] : old[i];
         VP_ASSERT(rc == PERSISTENT_ACCESS_SUCCESS, "C10.store-part.succeeds");
         VP_ASSERT(c10_data_is(want), "C10.store-part.data-on-medium-is-overlay");
         VP_ASSERT(c10_stored() == c10_ref(&in.cfg, want),
@@ -130,16 +157,12 @@ void harness(void)
         VP_ASSERT(rc == PERSISTENT_ACCESS_SUCCESS, "C10.validate-after-store-part.succeeds");
         rc = persistent_fetch(dst + GUARD, &s);
         VP_ASSERT(rc == PERSISTENT_ACCESS_SUCCESS, "C10.fetch-after-store-part.succeeds");
-        bool same = true;
-        for (size_t i = 0; i < N; ++i)
-            if (dst[GUARD + i] != want[i])
-                same = false;
-        VP_ASSERT(same, "C10.fetch-after-store-part.returns-overlay");
-        VP_WITNESS(in.off > 0 && in.off + in.len == N && in.cfg.aux == 2 && C10_KIND(&in.cfg) == 1,
+        VP_ASSERT(dst_is(dst, want), "C10.fetch-after-store-part.returns-overlay");
+        VP_WITNESS(in.off > 0 && in.off + in.len == N && in.cfg.aux == AUXMID && !a_lost,
                    "C10.store-part.tail.reach");
         VP_WITNESS(in.len == 0 && in.off == N, "C10.store-part.empty-at-end.reach");
-        VP_WITNESS(in.off == 0 && in.len == N && C10_KIND(&in.cfg) == 2, "C10.store-part.full.reach");
-        for (size_t i = 0; i < sizeof dst; ++i)
+        VP_WITNESS(in.off == 0 && in.len == N && in.cfg.aux == AUXMAX, "C10.store-part.full.reach");
+        for (size_t i = 0; i < DSTSZ; ++i)
             dst[i] = in.dst[i];
     }
 
@@ -163,7 +186,8 @@ void harness(void)
                 same = false;
         VP_ASSERT(same, "C10.fetch-part.returns-slice");
         VP_ASSERT(dst_guards_same(dst, in.dst, (size_t)in.flen), "C10.fetch-part.writes-only-n-octets");
-        VP_WITNESS(in.foff == N / 2 && in.flen > 0 && in.foff + in.flen == N && !oor, "C10.fetch-part.tail.reach");
+        VP_WITNESS(in.foff == N / 2 && in.flen > 0 && in.foff + in.flen == N && !oor,
+                   "C10.fetch-part.tail.reach");
     }
     VP_ASSERT(c10_medium_same(before), "C10.fetch-part.leaves-medium");
 
@@ -176,9 +200,9 @@ void harness(void)
             all = false;
     VP_ASSERT(all, "C10.reset.every-region-octet-is-fill-value");
     VP_ASSERT(c10_outside_same(in.medium), "C10.reset.nothing-outside-region");
-    VP_WITNESS(in.cfg.aux == 0 && C10_KIND(&in.cfg) == 2 && in.item == 0xa5, "C10.reset.nobuf.reach");
+    VP_WITNESS(in.cfg.aux == 0 && C10_WIDE(C10_KIND(&in.cfg)) && in.item == 0xa5, "C10.reset.nobuf-32bit.reach");
     VP_WITNESS(in.cfg.aux == AUXMAX && in.cfg.base == 0x12345678u, "C10.reset.bigbuf.reach");
-    VP_WITNESS(in.cfg.aux == AUXMID && C10_KIND(&in.cfg) == 1, "C10.reset.chunked.reach");
+    VP_WITNESS(in.cfg.aux == AUXMID && C10_KIND(&in.cfg) == 0, "C10.reset.chunked-default.reach");
 #else
 #error "no MODE"
 #endif
